@@ -806,7 +806,13 @@ fn make_violation<S: Sut>(part: &str, x: &Explore<S>, hist: &[u16], f: &Fail, ph
 
 /// Level-synchronous search. Returns the outcome; counters and violations
 /// are added to `run`.
-pub fn explore<S: Sut>(run: &mut Run, part: &str, x: &Explore<S>, bfs_deadline_s: f64, deep_budget_s: f64) -> ExploreOut
+pub fn explore<S: Sut>(
+    run: &mut Run,
+    part: &str,
+    x: &Explore<S>,
+    bfs_deadline_s: f64,
+    total_budget_s: f64,
+) -> ExploreOut
 where
     S::Cfg: Sync,
 {
@@ -941,6 +947,7 @@ where
         items.sort();
         let stop2 = AtomicBool::new(false);
         let t1 = Instant::now();
+        let deep_budget_s = (total_budget_s - t0.elapsed().as_secs_f64()).max(0.0);
         // par_map pops from the back: reverse so that BFS order is served first
         let mut order = items.clone();
         order.reverse();
